@@ -177,6 +177,52 @@ type sample struct {
 	PCSize    int        `json:"path_condition_conjuncts"`
 	Inputs    []TraceOut `json:"inputs,omitempty"`
 	Asserts   int        `json:"assertions_on_path"`
+	Rendered  []string   `json:"one_model_of_the_path_condition,omitempty"`
+}
+
+// sampleInputs asks the solver for one model of the current path condition
+// and renders the harness primitives' results under it.
+func (w *W) sampleInputs() []string {
+	ts := w.ts
+	f := ts.tt
+	for _, c := range w.pc {
+		f = ts.And(f, c)
+	}
+	seenT := map[int32]bool{}
+	vars := map[string]*Term{}
+	for _, tv := range w.trace {
+		if tv.Kind == "string" {
+			Vars(tv.S.Len, seenT, vars)
+			for _, b := range tv.S.B.Bytes {
+				if b != nil {
+					Vars(b, seenT, vars)
+				}
+			}
+		} else {
+			Vars(tv.T, seenT, vars)
+		}
+	}
+	Vars(f, seenT, vars)
+	names := make([]string, 0, len(vars))
+	for n := range vars {
+		names = append(names, n)
+	}
+	sort.Strings(names)
+	var vl []*Term
+	for _, n := range names {
+		vl = append(vl, vars[n])
+	}
+	w.sol.Push()
+	defer w.sol.Pop()
+	w.sol.Assert(f)
+	if w.sol.Check() != Sat {
+		return nil
+	}
+	env, err := w.sol.Values(vl)
+	if err != nil {
+		return nil
+	}
+	return renderTrace(w.concretizeTrace(env))
 }
 
 type Engine struct {
@@ -503,10 +549,29 @@ func (w *W) runPath(prefix []int32) {
 		for t := range w.reach {
 			e.reach[t]++
 		}
-		if end.kind == endOK && len(e.samples) < 5 && w.symbolicPath && w.assertsOnPath > 0 {
-			e.samples = append(e.samples, sample{Decisions: append([]int32(nil), w.decisions...), PCSize: len(w.pc), Asserts: w.assertsOnPath})
+		take := -1
+		if end.kind == endOK && w.symbolicPath && w.assertsOnPath > 0 {
+			if len(e.samples) < 4 {
+				take = len(e.samples)
+				e.samples = append(e.samples, sample{})
+			} else if len(w.pc) > e.samples[3].PCSize {
+				take = 3 // the last slot keeps the path with the longest path condition seen
+			}
+			if take >= 0 {
+				e.samples[take] = sample{Decisions: append([]int32(nil), w.decisions...), PCSize: len(w.pc), Asserts: w.assertsOnPath}
+			}
 		}
 		e.mu.Unlock()
+		if take >= 0 && take < 3 || (take == 3 && len(w.pc) > 8) {
+			// render one satisfying assignment of this path condition as concrete inputs
+			if in := w.sampleInputs(); in != nil {
+				e.mu.Lock()
+				if take < len(e.samples) && e.samples[take].PCSize == len(w.pc) {
+					e.samples[take].Rendered = in
+				}
+				e.mu.Unlock()
+			}
+		}
 	}
 	if w.ts.Size() > 400000 {
 		w.ts.ResetComposite()
